@@ -24,6 +24,7 @@ WORLDS = {
     "C16": "worlds.c16",
     "C01": "worlds.c01",
     "C12": "worlds.c12",
+    "C13": "worlds.c13",
 }
 
 # per-property tier sizes: (runs, wall budget seconds, per-run timeout)
